@@ -119,6 +119,8 @@ class LibMixin:
             if attr in ("get_origin", "get_args", "ClassVar", "final", "overload", "runtime_checkable", "assert_never",
                         "cast", "Union", "no_type_check", "get_type_hints", "assert_type", "reveal_type"):
                 return F(f"typing.{attr}")
+            if attr == "dataclass_transform":
+                return F("typing.dataclass_transform")  # dataclass_transform(...)(f) is f
             if attr in TYPING_OPAQUE:
                 return OpaqueV(f"typing.{attr}")
         elif n == "types":
@@ -1039,6 +1041,9 @@ class LibMixin:
 
     def lib_contextlib_closing(self, a, kw, run, node):
         return CtxMgrV("closing", a[0])
+
+    def lib_typing_dataclass_transform(self, a, kw, run, node):
+        return LibFn.get("identity")
 
     def lib_warnings_warn(self, a, kw, run, node):
         """warnings.warn(message, category): prints, or -- when the process runs with warnings turned into errors, as this project's own
